@@ -130,6 +130,50 @@ def vocab_for(d):
     return out
 
 
+LIST_SHAPES = [["a"], ["a", "b"], ["a", "a"], ["a", "b", "a"], ["a", "a", "b"], ["b", "@innerq", "b", "@innerq"]]
+
+
+def deep_uses(d):
+    """complete uses of the custom command that the enumeration bound cannot reach: every string-list position filled
+    with lists of several shapes (one item, distinct items, an item repeated -- also as the last one)"""
+    from . import render as R
+    out = []
+    for shape in LIST_SHAPES:
+        lst = [("lb", "")]
+        for i, v in enumerate(shape):
+            lst += ([("comma", "")] if i else []) + [("str", v)]
+        lst.append(("rb", ""))
+        for with_tags in (True, False):
+            toks = [("id", CNAME)]
+            if with_tags:
+                for s in d["slots"]:
+                    toks.append(("tag", s["pfor"][0] if s["pfor"] else s["tags"][0]))
+                    if s["ptype"] == "S":
+                        toks.append(("str", s["pvals"][0] if s["pvals"] else "a"))
+                    elif s["ptype"] == "N":
+                        toks.append(("num", "5"))
+                    elif s["ptype"] == "L":
+                        toks += lst
+            for t in d["pos"]:
+                toks += {"S": [("str", "a")], "N": [("num", "5")], "SL": lst}[t]
+            if d["kind"] == "test":
+                toks = [("id", "if")] + toks + [("lc", ""), ("id", "stop"), ("semi", ""), ("rc", "")]
+            else:
+                toks.append(("semi", ""))
+            toks = (slices.req("xext") if d["ext"] else []) + toks
+            for lay in ("space", "crlf"):
+                out.append(R.render(toks, lay)[0])
+    return list(dict.fromkeys(out))
+
+
+def _deep_worker(task):
+    d, devs = task
+    from . import ptrace
+    register(d)
+    recs, cnt, st = ptrace.judge_scripts(deep_uses(d), devs, custom=tla_entry(d), roundtrip=True)
+    return recs, cnt, {k: st.get(k) for k in ("error", "violated", "distinct", "states")}
+
+
 def named_expectation(d, flat):
     """spec tree -> list of {argname: value} for the custom nodes"""
     out = []
@@ -170,6 +214,16 @@ def run(prop, tier, seed):
             sl2 = dict(sl, name="custom%dnoext" % idx, prelude=[])
             runs.append(pengine.run_slice(sl2, 3, layouts, 2, 0, [], nproc=1, tlc_workers=2, roundtrip=True,
                                           worker_setup=(register, d), named=CNAME))
+        if any(t == "SL" for t in d["pos"]) or any(sx["ptype"] == "L" for sx in d["slots"]):
+            if idx < (14 if tier == "quick" else 10 ** 6):
+                import multiprocessing as mp
+                with mp.get_context("fork").Pool(1) as pool:
+                    recs, cnt, st = pool.apply(_deep_worker, ((d, devs),))
+                res = {"error": st["error"], "violated": st["violated"], "distinct": st["distinct"] or 0, "states": st["states"] or 0,
+                       "lines": 0, "depth": 0, "wall": 0}
+                if cnt.get("missing"):
+                    res["error"] = "SieveTrace returned no verdict for %d deep uses" % cnt["missing"]
+                runs.append((res, {"parses": cnt["parses"], "lines": cnt["parses"]}, recs))
         return idx, d, runs
 
     with ThreadPoolExecutor(max_workers=7) as ex:
